@@ -3,7 +3,7 @@
    Shards are lists of 16-bit words; the Go code works on the little-endian
    bytes of the same words through the kernels of C09. *)
 From Gopar Require Import Model.Base Model.GF16 Model.Matrix Model.RS16
-     Proofs.LinAlg Proofs.Matrix16 Proofs.RS16Facts.
+     Proofs.LinAlg Proofs.Matrix16 Proofs.RS16Facts Proofs.LinAlgSingular Proofs.CauchyMDS.
 Open Scope N_scope.
 
 (* For ANY well-formed parity matrix (hence both coders), any data, any erasure
@@ -43,6 +43,34 @@ Print Assumptions C07_vandermonde_wf.
 Theorem C07_cauchy_wf : forall d p, N.of_nat (d + p) <= 65535 -> wfm16 p d (cauchy_pm d p).
 Proof. exact cauchy_pm_wf. Qed.
 Print Assumptions C07_cauchy_wf.
+
+
+(* CAUCHY MDS: every square submatrix of the Cauchy parity matrix (any distinct rows, any distinct
+   columns, every size, every code with d + p <= 65535) is non-singular *)
+Theorem C07_cauchy_mds : forall d p rows cols,
+  (d + p <= 65535)%nat -> NoDup rows -> NoDup cols -> length rows = length cols ->
+  (forall r, In r rows -> (r < p)%nat) -> (forall c, In c cols -> (c < d)%nat) ->
+  forall v, wfv16 (length cols) v ->
+  mvec16 (minor (cauchy_pm d p) rows cols) v = zeros (length rows) -> v = zeros (length cols).
+Proof. exact cauchy_minor_injective. Qed.
+Print Assumptions C07_cauchy_mds.
+
+(* hence the Cauchy coder reconstructs bit-exactly for EVERY erasure pattern within capability:
+   any missing data shards, any available parity shards, as soon as there are enough of them *)
+Theorem C07_cauchy_succeeds : forall d p D kd kp L,
+  (0 < d)%nat -> (0 < p)%nat -> (d + p <= 65535)%nat -> wfm16 d L D -> length kd = d -> length kp = p ->
+  (count_false kd <= count_true kp)%nat ->
+  let c := {| c_data := d; c_parity := p; c_pm := cauchy_pm d p |} in
+  reconstruct c (erase kd D) (erase kp (gen_parity c D)) = Ok D.
+Proof. exact cauchy_reconstruct_succeeds. Qed.
+Print Assumptions C07_cauchy_succeeds.
+
+(* PAR2-Vandermonde (and any parity matrix): the singular error is returned exactly when the system
+   to be solved has a non-trivial kernel (from C11's iff), otherwise the data is restored *)
+Theorem C07_no_false_singular : forall q m n, wfm16 q q m ->
+  (forall v, wfv16 q v -> mvec16 m v = zeros q -> v = zeros q) -> forall e, RowReduce16 m n <> Err e.
+Proof. exact injective_not_singular. Qed.
+Print Assumptions C07_no_false_singular.
 
 (* non-vacuity: a 5+3 Cauchy code, two data shards and one parity shard erased *)
 Example C07_example :
